@@ -986,3 +986,605 @@ Lemma script_state_reachable ops : reachable (progs_of ops) (has_stop ops) (scri
 Proof.
   unfold script_state. apply dreach_drain. apply dreach_ops. exists []. reflexivity.
 Qed.
+
+(* ------------------------------------------------------------------ Part 2, generic *)
+(* Every clause of the property follows from "the log is an initial segment of [spec tasks]",
+   whichever runner produced the log. *)
+
+Lemma order_of_ext tasks l : ext_of tasks l -> chain_order l.
+Proof.
+  intros [ext HE] pre e post E. rewrite E, <- app_assoc in HE. cbn [app] in HE. unfold spec in HE.
+  destruct (spec_order _ _ _ _ _ _ HE) as [F J]. split; [exact F|].
+  intros i a Ee. rewrite (J i a Ee). reflexivity.
+Qed.
+
+Lemma args_of_ext tasks l : ext_of tasks l -> chain_args tasks l.
+Proof.
+  intros [ext HE]. unfold spec in HE. split.
+  - intros a HI. apply in_split in HI. destruct HI as [pre [post E]].
+    rewrite E, <- app_assoc in HE. cbn [app] in HE.
+    destruct (spec_args _ _ _ _ _ _ _ HE) as [[_ [_ EA]]|[b [L _]]]; [exact EA | lia].
+  - intros i a HI. apply in_split in HI. destruct HI as [pre [post E]].
+    rewrite E, <- app_assoc in HE. cbn [app] in HE.
+    destruct (spec_args _ _ _ _ _ _ _ HE) as [[_ [EJ _]]|[b [L [N C]]]]; [discriminate|].
+    exists b. replace (S i - 1 - 0)%nat with i in N by lia. auto.
+Qed.
+
+Lemma finals_of_ext tasks l : ext_of tasks l -> chain_finals tasks l.
+Proof.
+  intros [ext HE]. unfold spec in HE. split.
+  - intros r HI. apply in_split in HI. destruct HI as [pre [post E]].
+    rewrite E, <- app_assoc in HE. cbn [app] in HE.
+    destruct (spec_order _ _ _ _ _ _ HE) as [F _].
+    destruct (spec_final_true _ _ _ _ _ _ HE) as [EN [k [b [L [N C]]]]].
+    apply app_eq_nil in EN. destruct EN as [EP _]. subst post.
+    exists k, b. rewrite E, tasks_in_app, (tasks_in_all _ F). cbn. split; [lia | auto].
+  - intros r HI. apply in_split in HI. destruct HI as [pre [post E]].
+    rewrite E, <- app_assoc in HE. cbn [app] in HE.
+    destruct (spec_order _ _ _ _ _ _ HE) as [F _].
+    destruct (spec_final_false _ _ _ _ _ _ HE) as [EN [L M]].
+    apply app_eq_nil in EN. destruct EN as [EP _]. subst post.
+    rewrite E, tasks_in_app, (tasks_in_all _ F). cbn. split; [lia | exact M].
+Qed.
+
+Lemma finals_le_of_ext tasks l : ext_of tasks l -> (finals_in l <= 1)%nat.
+Proof.
+  intros [ext HE]. pose proof (spec_finals_le tasks O []) as L.
+  unfold spec in HE. rewrite <- HE, finals_in_app in L. lia.
+Qed.
+
+Lemma laws_of_ext tasks l : ext_of tasks l -> chain_laws tasks l.
+Proof.
+  intro H. split; [apply (order_of_ext _ _ H)|]. split; [apply (args_of_ext _ _ H)|].
+  split; [apply (finals_of_ext _ _ H) | apply (finals_le_of_ext _ _ H)].
+Qed.
+
+(* ... and the two liveness clauses from "the log IS [spec tasks]" *)
+Lemma jumps_of_eq tasks l : l = spec tasks -> error_jumps tasks l.
+Proof.
+  intros HS i a b r HI N C. apply in_split in HI. destruct HI as [pre [post E]].
+  exists pre. rewrite E. f_equal. f_equal. rewrite E in HS. unfold spec in HS.
+  apply (spec_error_jump tasks O [] pre i a post b r HS); [rewrite Nat.sub_0_r; exact N | exact C].
+Qed.
+
+Lemma once_of_eq tasks l : l = spec tasks -> invoked_once tasks l -> finals_in l = 1%nat.
+Proof.
+  intros HS HO. rewrite HS in *. unfold spec in *. apply spec_finals_once.
+  intros j a b HI HN. rewrite Nat.sub_0_r in HN. apply (HO j a b HI HN).
+Qed.
+
+(* ------------------------------------------------------------------ Part 2b: Simple *)
+
+Definition rec_mono (rec : xst -> nat -> list Z -> xst * xres) : Prop :=
+  forall s i a, exists L, x_log (fst (rec s i a)) = x_log s ++ L.
+
+Lemma x_calls_mono rec : rec_mono rec ->
+  forall l s, exists L, x_log (fst (x_calls rec s l)) = x_log s ++ L.
+Proof.
+  intro HR. induction l as [|[[|] a] l IH]; intro s; cbn [x_calls].
+  - exists []. rewrite app_nil_r. reflexivity.
+  - destruct (IH (x_logev s (EFinal true a))) as [L E]. exists ([EFinal true a] ++ L).
+    rewrite E. cbn [x_logev x_log]. rewrite <- app_assoc. reflexivity.
+  - destruct (HR (mkX (x_started s) (S (x_cursor s)) (x_pool s) (x_log s)) (S (x_cursor s)) a) as [L1 E1].
+    destruct (rec (mkX (x_started s) (S (x_cursor s)) (x_pool s) (x_log s)) (S (x_cursor s)) a) as [s2 r].
+    cbn [fst x_log] in E1. destruct r.
+    + destruct (IH s2) as [L2 E2]. exists (L1 ++ L2). rewrite E2, E1, app_assoc. reflexivity.
+    + exists L1. exact E1.
+    + exists L1. exact E1.
+Qed.
+
+Lemma x_exec_mono tasks : forall fuel, rec_mono (x_exec fuel tasks).
+Proof.
+  induction fuel as [|f IH]; intros s i a; cbn [x_exec].
+  - exists []. rewrite app_nil_r. reflexivity.
+  - destruct (nth_error tasks i) as [[il lt pan]|].
+    + destruct (x_calls_mono _ IH il (x_logev s (ETask i a))) as [L E].
+      destruct (x_calls (x_exec f tasks) (x_logev s (ETask i a)) il) as [s2 r]. cbn [fst] in E.
+      cbn [x_logev x_log] in E. exists ([ETask i a] ++ L). rewrite app_assoc, <- E.
+      destruct r; reflexivity.
+    + exists [EFinal false a]. reflexivity.
+Qed.
+
+(* fuel, cursor monotonicity, and where XPanic can come from - for ALL behaviours *)
+Definition nopan (tasks : list beh) : Prop := forall b, In b tasks -> no_pan b = true.
+
+Definition rec_safe (tasks : list beh) (rec : xst -> nat -> list Z -> xst * xres) (f : nat) : Prop :=
+  forall s i a, (i <= x_cursor s)%nat -> (length tasks - i < f)%nat ->
+    (x_cursor s <= x_cursor (fst (rec s i a)))%nat
+    /\ snd (rec s i a) <> XFuel /\ (nopan tasks -> snd (rec s i a) = XOk).
+
+Lemma x_calls_safe tasks rec f : rec_safe tasks rec f ->
+  forall l s c0, (c0 <= x_cursor s)%nat -> (length tasks - S c0 < f)%nat ->
+    (x_cursor s <= x_cursor (fst (x_calls rec s l)))%nat
+    /\ snd (x_calls rec s l) <> XFuel /\ (nopan tasks -> snd (x_calls rec s l) = XOk).
+Proof.
+  intro HR. induction l as [|[[|] a] l IH]; intros s c0 HC HF; cbn [x_calls].
+  - cbn. split; [lia|]. split; [discriminate | reflexivity].
+  - apply (IH (x_logev s (EFinal true a)) c0); [exact HC | exact HF].
+  - set (s1 := mkX (x_started s) (S (x_cursor s)) (x_pool s) (x_log s)).
+    assert (H1 : (S (x_cursor s) <= x_cursor s1)%nat) by (cbn; lia).
+    assert (H2 : (length tasks - S (x_cursor s) < f)%nat) by lia.
+    destruct (HR s1 (S (x_cursor s)) a H1 H2) as [M [NF NP]].
+    destruct (rec s1 (S (x_cursor s)) a) as [s2 r]. cbn [fst snd] in *. cbn [x_cursor s1] in M.
+    destruct r.
+    + assert (H3 : (c0 <= x_cursor s2)%nat) by (cbn in M; lia).
+      destruct (IH s2 c0 H3 HF) as [M2 R2]. split; [cbn in M; lia | exact R2].
+    + cbn [fst snd]. split; [cbn in M; lia|]. split; [discriminate | exact NP].
+    + contradiction.
+Qed.
+
+Lemma x_exec_safe tasks : forall f, rec_safe tasks (x_exec f tasks) f.
+Proof.
+  induction f as [|f IH]; intros s i a HC HF; [lia|]. cbn [x_exec].
+  destruct (nth_error tasks i) as [[il lt pan]|] eqn:HN.
+  - assert (HI : (i < length tasks)%nat) by (apply nth_error_Some; congruence).
+    assert (HF2 : (length tasks - S i < f)%nat) by lia.
+    destruct (x_calls_safe tasks _ f IH il (x_logev s (ETask i a)) i HC HF2) as [M [NF NP]].
+    destruct (x_calls (x_exec f tasks) (x_logev s (ETask i a)) il) as [s2 r]. cbn [fst snd] in *.
+    cbn [x_logev x_cursor] in M. destruct r; cbn [fst snd x_cursor].
+    + split; [exact M|]. split; [destruct pan; discriminate|].
+      intro P. specialize (P _ (nth_error_In _ _ HN)). cbn in P. destruct pan; [discriminate | reflexivity].
+    + split; [exact M|]. split; [discriminate | exact NP].
+    + contradiction.
+  - cbn. split; [lia|]. split; [discriminate | reflexivity].
+Qed.
+
+(* under "invoked tasks complete at most once": one top-level exec either finishes the rest of
+   the history, or leaves exactly one callback with the environment *)
+Definition XOut (tasks : list beh) (s s' : xst) (i : nat) (args : list Z) : Prop :=
+  x_started s' = x_started s /\
+  exists L, x_log s' = x_log s ++ L /\
+    ((x_pool s' = x_pool s /\ L = spec_from (skipn i tasks) i args)
+     \/ (exists k c, x_pool s' = x_pool s ++ [(k, c)]
+                     /\ L ++ fut tasks (x_cursor s') c = spec_from (skipn i tasks) i args)).
+
+Lemma x_exec_out tasks : forall fuel s i args s' r,
+  x_exec fuel tasks s i args = (s', r) -> x_cursor s = i ->
+  invoked_amo tasks (x_log s') -> r <> XFuel -> XOut tasks s s' i args.
+Proof.
+  induction fuel as [|f IH]; intros s i args s' r H HC HA HF; subst i; cbn [x_exec] in H.
+  - inv H. contradiction.
+  - destruct (nth_error tasks (x_cursor s)) as [[il lt pan]|] eqn:HN.
+    + (* the task is invoked *)
+      assert (HB : (length (completions (Beh il lt pan)) <= 1)%nat).
+      { destruct (x_calls_mono _ (x_exec_mono tasks f) il (x_logev s (ETask (x_cursor s) args))) as [L E].
+        destruct (x_calls (x_exec f tasks) (x_logev s (ETask (x_cursor s) args)) il) as [s2 r2]. cbn [fst] in E.
+        assert (EL : x_log s' = x_log s2) by (destruct r2; inv H; reflexivity).
+        apply (HA (x_cursor s) args _); [|exact HN]. rewrite EL, E. cbn [x_logev x_log].
+        apply in_or_app. left. apply in_or_app. right. left. reflexivity. }
+      destruct (completions_cases il lt pan HB) as [[E1 E2]|[[c [E1 E2]]|[c [E1 E2]]]]; subst il lt.
+      * cbn [x_calls] in H. inv H. split; [reflexivity|]. exists [ETask (x_cursor s) args]. split; [reflexivity|].
+        left. cbn [x_pool x_logev number]. rewrite app_nil_r. split; [reflexivity|].
+        rewrite (skipn_nth_error _ _ _ HN). reflexivity.
+      * destruct c as [[|] a]; cbn [x_calls] in H.
+        -- inv H. split; [reflexivity|]. exists [ETask (x_cursor s) args; EFinal true a].
+           cbn [x_log x_logev x_pool number]. rewrite <- app_assoc, app_nil_r. split; [reflexivity|].
+           left. split; [reflexivity|]. rewrite (skipn_nth_error _ _ _ HN). reflexivity.
+        -- cbn [x_logev x_started x_cursor x_pool x_log] in H.
+           destruct (x_exec f tasks (mkX (x_started s) (S (x_cursor s)) (x_pool s) (x_log s ++ [ETask (x_cursor s) args]))
+                            (S (x_cursor s)) a) as [s3 r3] eqn:HR.
+           assert (ES : x_log s' = x_log s3 /\ x_started s' = x_started s3 /\ x_cursor s' = x_cursor s3
+                        /\ x_pool s' = x_pool s3 /\ (r3 = XFuel -> r = XFuel)).
+           { destruct r3; cbn [x_calls] in H; inv H; cbn [x_log x_started x_cursor x_pool number];
+               rewrite ?app_nil_r; repeat split; try discriminate; auto. }
+           destruct ES as [EL [ESt [ECu [EPo EFu]]]].
+           assert (HF3 : r3 <> XFuel) by (intro X; apply HF; apply EFu; exact X).
+           rewrite EL in HA.
+           destruct (IH _ _ _ _ _ HR eq_refl HA HF3) as [St [L3 [EL3 Cases]]].
+           cbn [x_started x_log x_pool] in St, EL3, Cases.
+           split; [rewrite ESt; exact St|]. exists (ETask (x_cursor s) args :: L3).
+           split; [rewrite EL, EL3, <- app_assoc; reflexivity|].
+           rewrite (skipn_nth_error _ _ _ HN). cbn [spec_from completions app].
+           destruct Cases as [[P3 S3]|[k [c [P3 S3]]]].
+           ++ left. split; [rewrite EPo; exact P3 | rewrite S3; reflexivity].
+           ++ right. exists k, c. split; [rewrite EPo; exact P3|].
+              rewrite ECu. cbn [app]. rewrite S3. reflexivity.
+      * cbn [x_calls] in H. inv H. split; [reflexivity|]. exists [ETask (x_cursor s) args].
+        split; [reflexivity|]. right. exists (x_cursor s, O), c.
+        cbn [x_pool x_logev x_cursor number]. split; [reflexivity|].
+        rewrite (skipn_nth_error _ _ _ HN). cbn [spec_from completions app].
+        destruct c as [[|] a]; reflexivity.
+    + inv H. split; [reflexivity|]. exists [EFinal false args]. split; [reflexivity|].
+      left. split; [reflexivity|]. rewrite (skipn_none _ _ HN). reflexivity.
+Qed.
+
+Inductive XInv (tasks : list beh) (s : xst) : Prop :=
+| XI_init : x_started s = false -> x_pool s = [] -> x_log s = [] -> x_cursor s = O -> XInv tasks s
+| XI_wait : forall k c, x_started s = true -> x_pool s = [(k, c)] ->
+    x_log s ++ fut tasks (x_cursor s) c = spec tasks -> XInv tasks s
+| XI_done : x_started s = true -> x_pool s = [] -> x_log s = spec tasks -> XInv tasks s.
+
+Lemma x_step_mono tasks s l s' r : x_step tasks s l = Some (s', r) -> exists L, x_log s' = x_log s ++ L.
+Proof.
+  destruct l as [|i k]; cbn [x_step]; intro H.
+  - destruct (x_started s); [discriminate|]. assert (H1 : x_exec (x_fuel tasks) tasks (mkX true (x_cursor s) (x_pool s) (x_log s)) O [] = (s', r)) by congruence.
+    destruct (x_exec_mono tasks (x_fuel tasks) (mkX true (x_cursor s) (x_pool s) (x_log s)) O []) as [L E].
+    rewrite H1 in E. exists L. exact E.
+  - destruct (take_pool (i, k) (x_pool s)) as [[[[|] a] p']|]; [| |discriminate].
+    + inv H. exists [EFinal true a]. reflexivity.
+    + assert (H1 : x_exec (x_fuel tasks) tasks (mkX (x_started s) (S (x_cursor s)) p' (x_log s)) (S (x_cursor s)) a = (s', r)) by congruence.
+      destruct (x_exec_mono tasks (x_fuel tasks) (mkX (x_started s) (S (x_cursor s)) p' (x_log s)) (S (x_cursor s)) a) as [L E].
+      rewrite H1 in E. exists L. exact E.
+Qed.
+
+Lemma x_step_safe tasks s l s' r : x_step tasks s l = Some (s', r) ->
+  r <> XFuel /\ (nopan tasks -> r = XOk).
+Proof.
+  destruct l as [|i k]; cbn [x_step]; intro H.
+  - destruct (x_started s); [discriminate|]. assert (H1 : x_exec (x_fuel tasks) tasks (mkX true (x_cursor s) (x_pool s) (x_log s)) O [] = (s', r)) by congruence.
+    destruct (x_exec_safe tasks (x_fuel tasks) (mkX true (x_cursor s) (x_pool s) (x_log s)) O []) as [_ R].
+    + lia.
+    + unfold x_fuel. lia.
+    + rewrite H1 in R. exact R.
+  - destruct (take_pool (i, k) (x_pool s)) as [[[[|] a] p']|]; [| |discriminate].
+    + inv H. split; [discriminate | reflexivity].
+    + assert (H1 : x_exec (x_fuel tasks) tasks (mkX (x_started s) (S (x_cursor s)) p' (x_log s)) (S (x_cursor s)) a = (s', r)) by congruence.
+      destruct (x_exec_safe tasks (x_fuel tasks) (mkX (x_started s) (S (x_cursor s)) p' (x_log s)) (S (x_cursor s)) a) as [_ R].
+      * cbn. lia.
+      * unfold x_fuel. lia.
+      * rewrite H1 in R. exact R.
+Qed.
+
+Lemma xinv_of_out tasks s0 s' i args :
+  XOut tasks s0 s' i args -> x_started s0 = true -> x_pool s0 = [] ->
+  x_log s0 ++ spec_from (skipn i tasks) i args = spec tasks -> XInv tasks s'.
+Proof.
+  intros [St [L [EL Cases]]] HS HP HSp. destruct Cases as [[P E]|[k [c [P E]]]].
+  - apply XI_done; [congruence | congruence | rewrite EL, E; exact HSp].
+  - apply (XI_wait _ _ k c); [congruence | rewrite P, HP; reflexivity|].
+    rewrite EL, <- app_assoc, E. exact HSp.
+Qed.
+
+Lemma xinv_step tasks s l s' r :
+  XInv tasks s -> x_step tasks s l = Some (s', r) -> invoked_amo tasks (x_log s') -> XInv tasks s'.
+Proof.
+  intros I H HA. pose proof (x_step_safe _ _ _ _ _ H) as [NF _].
+  destruct I as [HS HP HL HC|k c HS HP HSp|HS HP HSp]; destruct l as [|i k']; cbn [x_step] in H.
+  - rewrite HS in H. assert (H1 : x_exec (x_fuel tasks) tasks (mkX true (x_cursor s) (x_pool s) (x_log s)) O [] = (s', r)) by congruence.
+    apply (xinv_of_out tasks (mkX true (x_cursor s) (x_pool s) (x_log s)) s' O []).
+    + apply (x_exec_out tasks _ _ _ _ _ _ H1); [exact HC | exact HA | exact NF].
+    + reflexivity.
+    + exact HP.
+    + cbn [x_log]. rewrite HL. reflexivity.
+  - rewrite HP in H. discriminate.
+  - rewrite HS in H. discriminate.
+  - rewrite HP, take_pool_one in H. destruct (key_eqb (i, k') k); [|discriminate].
+    destruct c as [[|] a].
+    + inv H. apply XI_done; cbn [x_started x_pool x_log x_logev]; [exact HS | reflexivity | exact HSp].
+    + assert (H1 : x_exec (x_fuel tasks) tasks (mkX (x_started s) (S (x_cursor s)) [] (x_log s)) (S (x_cursor s)) a = (s', r)) by congruence.
+      apply (xinv_of_out tasks (mkX (x_started s) (S (x_cursor s)) [] (x_log s)) s' (S (x_cursor s)) a).
+      * apply (x_exec_out tasks _ _ _ _ _ _ H1); [reflexivity | exact HA | exact NF].
+      * exact HS.
+      * reflexivity.
+      * exact HSp.
+  - rewrite HS in H. discriminate.
+  - rewrite HP in H. discriminate.
+Qed.
+
+Lemma x_run_snoc tasks ls l : x_run tasks (ls ++ [l]) = x_step_or_stay tasks (x_run tasks ls) l.
+Proof. unfold x_run. rewrite fold_left_app. reflexivity. Qed.
+
+Lemma xinv_run tasks : forall ls,
+  invoked_amo tasks (x_log (fst (x_run tasks ls))) -> XInv tasks (fst (x_run tasks ls)).
+Proof.
+  intro ls. induction ls as [|l ls IH] using rev_ind; intro HA.
+  - apply XI_init; reflexivity.
+  - rewrite x_run_snoc in *. unfold x_step_or_stay in *.
+    destruct (x_step tasks (fst (x_run tasks ls)) l) as [[s' r]|] eqn:E; [|apply IH; exact HA].
+    cbn [fst] in *. destruct (x_step_mono _ _ _ _ _ E) as [L EL].
+    apply (xinv_step tasks (fst (x_run tasks ls)) l s' r); [|exact E|exact HA].
+    apply IH. rewrite EL in HA. apply (invoked_amo_mono _ _ _ HA).
+Qed.
+
+Lemma simple_holds tasks sr :
+  xreachable tasks sr -> invoked_amo tasks (x_log (fst sr)) ->
+  ext_of tasks (x_log (fst sr))
+  /\ (x_started (fst sr) = true -> x_pool (fst sr) = [] -> x_log (fst sr) = spec tasks).
+Proof.
+  intros [ls E] HA. subst sr. destruct (xinv_run tasks ls HA) as [HS HP HL HC|k c HS HP HSp|HS HP HSp].
+  - split; [exists (spec tasks); rewrite HL; reflexivity | congruence].
+  - split; [eexists; exact HSp | intros _ P; rewrite HP in P; discriminate].
+  - split; [exists []; rewrite app_nil_r; exact HSp | intros _ _; exact HSp].
+Qed.
+
+Lemma simple_results tasks sr : xreachable tasks sr ->
+  ~ In XFuel (snd sr) /\ (nopan tasks -> forall r, In r (snd sr) -> r = XOk).
+Proof.
+  intros [ls E]. subst sr. induction ls as [|l ls IH] using rev_ind.
+  - cbn. split; [tauto | intros _ r []].
+  - rewrite x_run_snoc. unfold x_step_or_stay.
+    destruct (x_step tasks (fst (x_run tasks ls)) l) as [[s' r]|] eqn:ES; [|exact IH].
+    destruct (x_step_safe _ _ _ _ _ ES) as [NF NP]. destruct IH as [I1 I2]. cbn [snd]. split.
+    + intro H. apply in_app_or in H. destruct H as [H|[H|[]]]; [tauto | congruence].
+    + intros P r0 H. apply in_app_or in H. destruct H as [H|[H|[]]]; [apply (I2 P _ H) | subst; apply NP; exact P].
+Qed.
+
+(* ------------------------------------------------------------------ Part 2c: ExecAndWait *)
+
+Lemma e_csend_log s c : e_log (e_csend s c) = e_log s.
+Proof.
+  unfold e_csend, e_store. destruct (fst c); cbn [e_closed e_chan];
+    destruct (e_closed s); try reflexivity; destruct (e_chan s); reflexivity.
+Qed.
+
+Lemma e_fold_log : forall il s,
+  e_log (fold_left (fun s c => if e_running s then e_csend s c else s) il s) = e_log s.
+Proof.
+  induction il as [|c il IH]; intro s; cbn [fold_left]; [reflexivity|].
+  rewrite IH. destruct (e_running s); [apply e_csend_log | reflexivity].
+Qed.
+
+Lemma e_task_log s i b args : e_log (e_task s i b args) = e_log s ++ [ETask i args].
+Proof.
+  destruct b as [il lt pan]. unfold e_task.
+  set (s1 := fold_left _ il _).
+  assert (E : e_log s1 = e_log s ++ [ETask i args]) by (unfold s1; rewrite e_fold_log; reflexivity).
+  destruct (e_running s1); [|exact E]. destruct pan; cbn [e_set_status e_log]; exact E.
+Qed.
+
+Lemma e_gofinal_log s args : e_log (e_gofinal_false s args) = e_log s.
+Proof.
+  unfold e_gofinal_false. cbn [e_closed e_chan]. destruct (e_closed s); [reflexivity|].
+  destruct (e_chan s); reflexivity.
+Qed.
+
+Lemma e_try_log tasks s i args : exists L, e_log (e_try tasks s i args) = e_log s ++ L.
+Proof.
+  unfold e_try. destruct (nth_error tasks i) as [b|].
+  - exists [ETask i args]. apply e_task_log.
+  - exists []. rewrite app_nil_r. apply e_gofinal_log.
+Qed.
+
+Lemma e_esend_log s c : e_log (e_esend s c) = e_log s.
+Proof.
+  unfold e_esend, e_store. destruct (fst c); cbn [e_closed e_chan];
+    destruct (e_closed s); try reflexivity; destruct (e_chan s); reflexivity.
+Qed.
+
+Lemma estep_log_mono tasks s l s' : estep tasks s l = Some s' -> exists L, e_log s' = e_log s ++ L.
+Proof.
+  destruct l as [| |i k]; cbn [estep]; intro H.
+  - destruct (e_status s); try discriminate. destruct tasks as [|b tl]; inv H.
+    + exists [EFinal false []]. reflexivity.
+    + apply (e_try_log (b :: tl) (e_set_status s ELooping) O []).
+  - destruct (e_running s); [|discriminate]. destruct (e_chan s) as [|t rest].
+    + destruct (e_closed s); inv H. exists []. rewrite app_nil_r. reflexivity.
+    + destruct t; inv H.
+      * match goal with |- context [e_try tasks ?x ?j ?a] => destruct (e_try_log tasks x j a) as [L E] end.
+        exists L. exact E.
+      * eexists. reflexivity.
+  - destruct (take_pool (i, k) (e_pool s)) as [[c p']|]; inv H.
+    exists []. rewrite app_nil_r. rewrite e_esend_log. reflexivity.
+Qed.
+
+Inductive EInv (tasks : list beh) (s : est) : Prop :=
+| EI_init : s = e_init -> EInv tasks s
+| EI_next : e_status s = ELooping -> e_chan s = [TNext] -> e_closed s = false -> e_pool s = [] ->
+    e_blocked s = [] -> e_envpanics s = O ->
+    e_log s ++ spec_from (skipn (S (e_cursor s)) tasks) (S (e_cursor s)) (e_args s) = spec tasks ->
+    EInv tasks s
+| EI_final : e_status s = ELooping -> e_chan s = [TFinal] -> e_closed s = false -> e_pool s = [] ->
+    e_blocked s = [] -> e_envpanics s = O ->
+    e_log s ++ [EFinal (e_err s) (e_args s)] = spec tasks -> EInv tasks s
+| EI_pool : forall k c, e_status s = ELooping -> e_chan s = [] -> e_closed s = false ->
+    e_pool s = [(k, c)] -> e_blocked s = [] -> e_envpanics s = O ->
+    e_log s ++ fut tasks (e_cursor s) c = spec tasks -> EInv tasks s
+| EI_parked : e_status s = ELooping -> e_chan s = [] -> e_closed s = false -> e_pool s = [] ->
+    e_blocked s = [] -> e_envpanics s = O -> e_log s = spec tasks ->
+    (exists i a b, In (ETask i a) (e_log s) /\ nth_error tasks i = Some b /\ completions b = []) ->
+    EInv tasks s
+| EI_closing : e_status s = ELooping -> e_chan s = [] -> e_closed s = true -> e_pool s = [] ->
+    e_blocked s = [] -> e_envpanics s = O -> e_log s = spec tasks -> finals_in (e_log s) = 1%nat ->
+    EInv tasks s
+| EI_returned : e_status s = EReturned -> e_pool s = [] -> e_blocked s = [] -> e_envpanics s = O ->
+    e_log s = spec tasks -> finals_in (e_log s) = 1%nat -> EInv tasks s
+| EI_dead : e_status s = ECallerPanic -> e_closed s = false -> e_envpanics s = O ->
+    ext_of tasks (e_log s) ->
+    (exists i a il lt, In (ETask i a) (e_log s) /\ nth_error tasks i = Some (Beh il lt true)) ->
+    EInv tasks s.
+
+(* donext / the first exec, with an empty channel and nothing else pending *)
+Lemma e_try_inv tasks cu ar er lo i args :
+  lo ++ spec_from (skipn i tasks) i args = spec tasks -> cu = i ->
+  (forall b, nth_error tasks i = Some b -> (length (completions b) <= 1)%nat) ->
+  EInv tasks (e_try tasks (mkE ELooping cu [] [] false ar er [] lo 0) i args).
+Proof.
+  intros HS HC HA. subst cu. unfold e_try. destruct (nth_error tasks i) as [[il lt pan]|] eqn:HN.
+  - rewrite (skipn_nth_error _ _ _ HN) in HS. cbn [spec_from] in HS.
+    destruct (completions_cases il lt pan (HA _ eq_refl)) as [[E1 E2]|[[c [E1 E2]]|[c [E1 E2]]]];
+      subst il lt; cbn [completions app] in HS.
+    + destruct pan; cbn.
+      * apply EI_dead; cbn; try reflexivity.
+        -- exists []. rewrite app_nil_r. exact HS.
+        -- exists i, args, [], []. split; [apply in_or_app; right; left; reflexivity | exact HN].
+      * apply EI_parked; cbn; try reflexivity; [exact HS|].
+        exists i, args, (Beh [] [] false). split; [apply in_or_app; right; left; reflexivity|]. auto.
+    + destruct c as [[|] a]; destruct pan; cbn.
+      * apply EI_dead; cbn; try reflexivity.
+        -- exists [EFinal true a]. rewrite <- app_assoc. exact HS.
+        -- exists i, args, [(true, a)], []. split; [apply in_or_app; right; left; reflexivity | exact HN].
+      * apply EI_final; cbn; try reflexivity. rewrite <- app_assoc. exact HS.
+      * apply EI_dead; cbn; try reflexivity.
+        -- eexists. rewrite <- app_assoc. exact HS.
+        -- exists i, args, [(false, a)], []. split; [apply in_or_app; right; left; reflexivity | exact HN].
+      * apply EI_next; cbn; try reflexivity. rewrite <- app_assoc. exact HS.
+    + destruct pan; cbn.
+      * apply EI_dead; cbn; try reflexivity.
+        -- eexists. rewrite <- app_assoc. exact HS.
+        -- exists i, args, [], [c]. split; [apply in_or_app; right; left; reflexivity | exact HN].
+      * apply (EI_pool _ _ (i, O) c); cbn; try reflexivity.
+        rewrite <- app_assoc. cbn [app]. destruct c as [[|] a]; exact HS.
+  - rewrite (skipn_none _ _ HN) in HS. cbn [spec_from] in HS. cbn.
+    apply EI_final; cbn; try reflexivity. exact HS.
+Qed.
+
+Lemma amo_of_try tasks s i args :
+  invoked_amo tasks (e_log (e_try tasks s i args)) ->
+  forall b, nth_error tasks i = Some b -> (length (completions b) <= 1)%nat.
+Proof.
+  intros HA b HN. apply (HA i args b); [|exact HN]. unfold e_try. rewrite HN, e_task_log.
+  apply in_or_app. right. left. reflexivity.
+Qed.
+
+Lemma finals_one_of_final tasks lo e a : lo ++ [EFinal e a] = spec tasks -> finals_in (lo ++ [EFinal e a]) = 1%nat.
+Proof.
+  intro H. pose proof (spec_finals_le tasks O []) as L. unfold spec in H. rewrite <- H in L.
+  rewrite finals_in_app in *. cbn in *. lia.
+Qed.
+
+Lemma e_esend_dead s c : e_closed s = false ->
+  e_status (e_esend s c) = e_status s /\ e_closed (e_esend s c) = false
+  /\ e_envpanics (e_esend s c) = e_envpanics s.
+Proof.
+  intro HC. unfold e_esend, e_store. destruct (fst c); cbn [e_closed e_chan]; rewrite HC;
+    destruct (e_chan s); cbn; auto.
+Qed.
+
+Lemma einv_step tasks s l s' :
+  EInv tasks s -> estep tasks s l = Some s' -> invoked_amo tasks (e_log s') -> EInv tasks s'.
+Proof.
+  intros I H HA.
+  destruct I as [E|HSt HCh HCl HPo HBl HEp HS|HSt HCh HCl HPo HBl HEp HS|k c HSt HCh HCl HPo HBl HEp HS
+                 |HSt HCh HCl HPo HBl HEp HS HW|HSt HCh HCl HPo HBl HEp HS HF|HSt HPo HBl HEp HS HF
+                 |HSt HCl HEp HX HW].
+  - (* not started *)
+    subst s. destruct l as [| |i k]; cbn in H; try discriminate.
+    destruct tasks as [|b tl].
+    + inv H. apply EI_returned; reflexivity.
+    + inv H. change (e_set_status e_init ELooping) with (mkE ELooping 0 [] [] false [] false [] [] 0) in *.
+      apply e_try_inv; [reflexivity | reflexivity | apply (amo_of_try _ _ _ _ HA)].
+  - destruct s as [st cu ch bl cl ar er po lo ep]. cbn in HSt, HCh, HCl, HPo, HBl, HEp, HS. subst.
+    destruct l as [| |i k]; cbn in H; try discriminate. inv H.
+    apply e_try_inv; [exact HS | reflexivity | apply (amo_of_try _ _ _ _ HA)].
+  - destruct s as [st cu ch bl cl ar er po lo ep]. cbn in HSt, HCh, HCl, HPo, HBl, HEp, HS. subst.
+    destruct l as [| |i k]; cbn in H; try discriminate. inv H.
+    apply EI_closing; cbn; try reflexivity; [exact HS | apply (finals_one_of_final _ _ _ _ HS)].
+  - destruct s as [st cu ch bl cl ar er po lo ep]. cbn in HSt, HCh, HCl, HPo, HBl, HEp, HS. subst.
+    destruct l as [| |i k']; cbn [estep e_status e_running e_chan e_closed e_pool] in H; try discriminate.
+    rewrite take_pool_one in H. destruct (key_eqb (i, k') k); [|discriminate]. inv H.
+    destruct c as [[|] a]; cbn.
+    + apply EI_final; cbn; try reflexivity. exact HS.
+    + apply EI_next; cbn; try reflexivity. exact HS.
+  - destruct s as [st cu ch bl cl ar er po lo ep]. cbn in HSt, HCh, HCl, HPo, HBl, HEp, HS. subst.
+    destruct l as [| |i k]; cbn in H; discriminate.
+  - destruct s as [st cu ch bl cl ar er po lo ep]. cbn in HSt, HCh, HCl, HPo, HBl, HEp, HS, HF. subst.
+    destruct l as [| |i k]; cbn in H; try discriminate. inv H.
+    apply EI_returned; cbn; try reflexivity. exact HF.
+  - destruct s as [st cu ch bl cl ar er po lo ep]. cbn in HSt, HPo, HBl, HEp, HS. subst.
+    destruct l as [| |i k]; cbn in H; discriminate.
+  - destruct l as [| |i k]; cbn [estep] in H.
+    + rewrite HSt in H. discriminate.
+    + unfold e_running in H. rewrite HSt in H. discriminate.
+    + destruct (take_pool (i, k) (e_pool s)) as [[c p']|]; [|discriminate]. inv H.
+      match goal with |- EInv _ (e_esend ?x c) =>
+        destruct (e_esend_dead x c HCl) as [A [B C]]; pose proof (e_esend_log x c) as D end.
+      cbn [e_status e_envpanics e_log] in A, C, D.
+      apply EI_dead; [rewrite A; exact HSt | exact B | rewrite C; exact HEp | rewrite D; exact HX | rewrite D; exact HW].
+Qed.
+
+Lemma erun_snoc tasks ls l : erun tasks (ls ++ [l]) = estep_or_stay tasks (erun tasks ls) l.
+Proof. unfold erun. rewrite fold_left_app. reflexivity. Qed.
+
+Lemma einv_run tasks : forall ls, invoked_amo tasks (e_log (erun tasks ls)) -> EInv tasks (erun tasks ls).
+Proof.
+  intro ls. induction ls as [|l ls IH] using rev_ind; intro HA.
+  - apply EI_init. reflexivity.
+  - rewrite erun_snoc in *. unfold estep_or_stay in *.
+    destruct (estep tasks (erun tasks ls) l) as [s'|] eqn:E; [|apply IH; exact HA].
+    destruct (estep_log_mono _ _ _ _ E) as [L EL].
+    apply (einv_step tasks (erun tasks ls) l s'); [|exact E|exact HA].
+    apply IH. rewrite EL in HA. apply (invoked_amo_mono _ _ _ HA).
+Qed.
+
+Lemma wait_holds tasks s : ereachable tasks s -> invoked_amo tasks (e_log s) ->
+  ext_of tasks (e_log s)
+  /\ e_status s <> ECallerStuck /\ e_envpanics s = O
+  /\ (e_status s = EReturned -> e_log s = spec tasks /\ finals_in (e_log s) = 1%nat)
+  /\ (equiescent tasks s -> invoked_once tasks (e_log s) -> invoked_nopanic tasks (e_log s) ->
+      e_status s = EReturned).
+Proof.
+  intros [ls E] HA. subst s.
+  destruct (einv_run tasks ls HA) as [E|HSt HCh HCl HPo HBl HEp HS|HSt HCh HCl HPo HBl HEp HS|k c HSt HCh HCl HPo HBl HEp HS
+                 |HSt HCh HCl HPo HBl HEp HS HW|HSt HCh HCl HPo HBl HEp HS HF|HSt HPo HBl HEp HS HF
+                 |HSt HCl HEp HX HW].
+  - rewrite E. cbn. split; [exists (spec tasks); reflexivity|]. split; [discriminate|]. split; [reflexivity|].
+    split; [discriminate|]. intros Q _ _. specialize (Q WStart). cbn in Q.
+    destruct tasks; discriminate.
+  - split; [eexists; exact HS|]. split; [congruence|]. split; [exact HEp|]. split; [congruence|].
+    intros Q _ _. specialize (Q WLoop). cbn [estep] in Q. unfold e_running in Q. rewrite HSt, HCh in Q. discriminate.
+  - split; [eexists; exact HS|]. split; [congruence|]. split; [exact HEp|]. split; [congruence|].
+    intros Q _ _. specialize (Q WLoop). cbn [estep] in Q. unfold e_running in Q. rewrite HSt, HCh in Q. discriminate.
+  - split; [eexists; exact HS|]. split; [congruence|]. split; [exact HEp|]. split; [congruence|].
+    intros Q _ _. specialize (Q (WFire (fst k) (snd k))). cbn [estep] in Q.
+    rewrite HPo, take_pool_one in Q. unfold key_eqb in Q. cbn [fst snd] in Q. rewrite !Nat.eqb_refl in Q.
+    discriminate.
+  - split; [exists []; rewrite app_nil_r; exact HS|]. split; [congruence|]. split; [exact HEp|].
+    split; [congruence|]. intros _ HO _. destruct HW as [i [a [b [HI [HN HC]]]]].
+    specialize (HO i a b HI HN). rewrite HC in HO. discriminate.
+  - split; [exists []; rewrite app_nil_r; exact HS|]. split; [congruence|]. split; [exact HEp|].
+    split; [congruence|]. intros Q _ _. specialize (Q WLoop). cbn [estep] in Q. unfold e_running in Q.
+    rewrite HSt, HCh, HCl in Q. discriminate.
+  - split; [exists []; rewrite app_nil_r; exact HS|]. split; [congruence|]. split; [exact HEp|].
+    split; [intros _; split; assumption | intros _ _ _; exact HSt].
+  - split; [exact HX|]. split; [congruence|]. split; [exact HEp|]. split; [congruence|].
+    intros _ _ HN. destruct HW as [i [a [il [lt [HI HT]]]]]. specialize (HN i a _ HI HT). discriminate.
+Qed.
+
+(* the three runners agree once they are done *)
+Lemma runners_coincide tasks sc sx se :
+  creachable tasks sc -> cquiescent sc -> invoked_amo tasks (clog sc) ->
+  xreachable tasks sx -> x_started (fst sx) = true -> x_pool (fst sx) = [] -> invoked_amo tasks (x_log (fst sx)) ->
+  ereachable tasks se -> e_status se = EReturned -> invoked_amo tasks (e_log se) ->
+  clog sc = spec tasks /\ x_log (fst sx) = spec tasks /\ e_log se = spec tasks.
+Proof.
+  intros RC QC AC RX SX PX AX RE SE AE.
+  split; [apply (proj2 (chain_spec_holds _ _ RC AC) QC)|].
+  split; [apply (proj2 (simple_holds _ _ RX AX) SX PX)|].
+  destruct (wait_holds _ _ RE AE) as [_ [_ [_ [H _]]]]. apply (H SE).
+Qed.
+
+(* ------------------------------------------------------------------ registry *)
+
+Definition reg_bounded (m : mgr_state) : Prop :=
+  0 <= m_next m /\ forall n id, aget n (m_reg m) = Some id -> 0 <= id < m_next m.
+
+Lemma reg_bounded_step m o : reg_bounded m -> reg_bounded (m_step m o).
+Proof.
+  intros [B0 B]. destruct o as [k|k]; cbn [m_step].
+  - unfold m_get. destruct (aget k (m_reg m)) as [x|] eqn:E; cbn [fst m_reg m_next].
+    + split; [exact B0 | exact B].
+    + unfold reg_bounded. cbn [m_reg m_next]. split; [lia|]. intros n id H. destruct (Z.eq_dec n k) as [EQ|NE].
+      * subst. rewrite aget_aset_same in H. inv H. lia.
+      * rewrite aget_aset_other in H by exact NE. specialize (B n id H). lia.
+  - unfold m_del, reg_bounded. cbn [m_reg m_next]. split; [exact B0|]. intros n id H.
+    destruct (Z.eq_dec n k) as [EQ|NE].
+    + subst. rewrite aget_adel_same in H. discriminate.
+    + rewrite aget_adel_other in H by exact NE. apply (B n id H).
+Qed.
+
+Lemma reg_bounded_run ops : reg_bounded (m_run ops).
+Proof.
+  unfold m_run. induction ops as [|o ops IH] using rev_ind.
+  - split; [reflexivity | intros n id H; discriminate H].
+  - rewrite fold_left_app. cbn [fold_left]. apply reg_bounded_step. exact IH.
+Qed.
+
+Lemma registry_laws ops n :
+  let m := m_run ops in
+  (forall k id, aget k (m_reg m) = Some id -> 0 <= id < m_next m)
+  /\ m_get (fst (m_get m n)) n = (fst (m_get m n), snd (m_get m n))
+  /\ (forall k, k <> n -> aget k (m_reg (fst (m_get m n))) = aget k (m_reg m))
+  /\ snd (m_get (m_del m n) n) = m_next m
+  /\ (forall k, k <> n -> aget k (m_reg (m_del m n)) = aget k (m_reg m)).
+Proof.
+  intro m. destruct (reg_bounded_run ops) as [_ B]. fold m in B. split; [exact B|]. split.
+  - unfold m_get. destruct (aget n (m_reg m)) as [x|] eqn:E; cbn [fst snd m_reg].
+    + rewrite E. reflexivity.
+    + rewrite aget_aset_same. reflexivity.
+  - split.
+    + intros k NE. unfold m_get. destruct (aget n (m_reg m)); cbn [fst m_reg]; [reflexivity|].
+      apply aget_aset_other. exact NE.
+    + split.
+      * unfold m_get, m_del. cbn [m_reg m_next]. rewrite aget_adel_same. reflexivity.
+      * intros k NE. unfold m_del. cbn [m_reg]. apply aget_adel_other. exact NE.
+Qed.
